@@ -1,19 +1,28 @@
-/- line-protocol driver for the generated sequence counters: `a t|f` steps the async counter, `s t|f` the threaded one -/
+/- line-protocol driver for the generated sequence counters: `a t|f` / `b t|f` step two independent async protocol objects,
+   `s t|f` / `t t|f` two independent threaded sockets (the counters are per connection) -/
 import GeckoModel.Generated.SeqCounter
 open GeckoModel.Generated
 
-def stepLine (a s : SeqState) (line : String) : SeqState × SeqState × String :=
-  match line.trimAscii.toString.splitOn " " with
-  | ["a", k] => let r := nextSeqAsync a (k == "t"); (r.1, s, toString r.2)
-  | ["s", k] => let r := nextSeqSync s (k == "t"); (a, r.1, toString r.2)
-  | ["reset"] => (seqInitAsync, seqInitSync, "ok")
-  | _ => (a, s, "bad-op")
+structure St where
+  a : SeqState := seqInitAsync
+  b : SeqState := seqInitAsync
+  s : SeqState := seqInitSync
+  t : SeqState := seqInitSync
 
-partial def loop (h : IO.FS.Stream) (a s : SeqState) : IO Unit := do
+def stepLine (st : St) (line : String) : St × String :=
+  match line.trimAscii.toString.splitOn " " with
+  | ["a", k] => let r := nextSeqAsync st.a (k == "t"); ({ st with a := r.1 }, toString r.2)
+  | ["b", k] => let r := nextSeqAsync st.b (k == "t"); ({ st with b := r.1 }, toString r.2)
+  | ["s", k] => let r := nextSeqSync st.s (k == "t"); ({ st with s := r.1 }, toString r.2)
+  | ["t", k] => let r := nextSeqSync st.t (k == "t"); ({ st with t := r.1 }, toString r.2)
+  | ["reset"] => ({}, "ok")
+  | _ => (st, "bad-op")
+
+partial def loop (h : IO.FS.Stream) (st : St) : IO Unit := do
   let line ← h.getLine
   if line.isEmpty then return ()
-  let (a', s', out) := stepLine a s line
+  let (st', out) := stepLine st line
   IO.println out
-  loop h a' s'
+  loop h st'
 
-def main : IO Unit := do loop (← IO.getStdin) seqInitAsync seqInitSync
+def main : IO Unit := do loop (← IO.getStdin) {}
